@@ -1195,7 +1195,7 @@ Proof. apply others_same_aligned. apply spec_c02_model. Qed.
 (* what the model itself would be observed to do *)
 Definition model_obs (O : oracles) (p : pool) (o : op) : stepobs :=
   {| s_op := o; s_out := fst (step O p o); s_delta := full_delta (snd (step O p o));
-     s_nrows := map (fun f => Z.of_nat (nrows f)) (snd (step O p o)) |}.
+     s_nrows := map (fun f => Z.of_nat (nrows f)) (snd (step O p o)); s_shared := false |}.
 
 Lemma model_obs_post O p o : apply_delta p (s_delta (model_obs O p o)) = snd (step O p o).
 Proof. cbn [model_obs s_delta]. apply apply_delta_full, step_length_ge. Qed.
@@ -1217,7 +1217,7 @@ Proof.
   rewrite H10, H11, H12, H13, H20, H30, H31, !orb_true_r. cbn [app].
   assert (A : forall (x y : list nat), x = [] -> y = [] -> x ++ y = []) by (intros x y -> ->; reflexivity).
   assert (H32 : (match mo, mo with Err, Ok _ => [32%nat] | _, _ => [] end) = []) by (destruct mo; reflexivity).
-  apply A; [exact Hcorr | apply A; [exact Hspecial | exact H32]].
+  apply A; [exact Hcorr | apply A; [exact Hspecial | apply A; [exact H32 | reflexivity]]].
 Qed.
 
 (* a history replayed from the model itself raises no finding at any step *)
@@ -1355,20 +1355,22 @@ Proof. vm_compute. repeat split. Qed.
 Example check_step_codes :
   check_step O0 [fa] (model_obs O0 [fa] (OSort 0 [ka] None)) = []
   /\ check_step O0 [fa] {| s_op := OSort 0 [ka] None; s_out := Ok (VFrame g_unsorted);
-                            s_delta := [(1%nat, g_unsorted)]; s_nrows := [3; 3] |} = [40; 1]%nat
+                            s_delta := [(1%nat, g_unsorted)]; s_nrows := [3; 3]; s_shared := false |} = [40; 1]%nat
   /\ check_step O0 [fa] {| s_op := OHead 0 2; s_out := Ok (VFrame h_bad);
-                            s_delta := [(1%nat, h_bad)]; s_nrows := [3; 2] |} = [1; 2; 12]%nat
+                            s_delta := [(1%nat, h_bad)]; s_nrows := [3; 2]; s_shared := false |} = [1; 2; 12]%nat
   /\ check_step O0 [fa; fb] {| s_op := OFillNa 0 (CI KInt 0); s_out := Ok VNone;
                                 s_delta := [(0%nat, op_fillna fa (CI KInt 0)); (1%nat, op_fillna fb (CI KInt 0))];
-                                s_nrows := [3; 1] |} = [2; 13; 20]%nat
+                                s_nrows := [3; 1]; s_shared := false |} = [2; 13; 20]%nat
   /\ check_step O0 [fa] {| s_op := OShift 0 1; s_out := Ok (VFrame fa);
-                            s_delta := [(1%nat, fa)]; s_nrows := [3; 3] |} = [1; 2; 41]%nat
-  /\ check_step O0 [fa] {| s_op := ODropRow 0 7; s_out := Panic; s_delta := []; s_nrows := [3] |} = [1; 30]%nat
-  /\ check_step O0 [fa] {| s_op := ODropRow 0 7; s_out := Err; s_delta := [(0%nat, fb)]; s_nrows := [1] |}
+                            s_delta := [(1%nat, fa)]; s_nrows := [3; 3]; s_shared := false |} = [1; 2; 41]%nat
+  /\ check_step O0 [fa] {| s_op := ODropRow 0 7; s_out := Panic; s_delta := []; s_nrows := [3]; s_shared := false |} = [1; 30]%nat
+  /\ check_step O0 [fa] {| s_op := ODropRow 0 7; s_out := Err; s_delta := [(0%nat, fb)]; s_nrows := [1]; s_shared := false |}
      = [2; 31]%nat
   /\ check_step O0 [fk] {| s_op := OGroupby 0 (GOne ka);
                             s_out := Ok (VGroups [(CI KInt 2, [r2]); (CI KInt 1, [r1; r1])]);
-                            s_delta := []; s_nrows := [3] |} = [1; 42]%nat.
+                            s_delta := []; s_nrows := [3]; s_shared := false |} = [1; 42]%nat
+  /\ check_step O0 [fa] {| s_op := OHead 0 2; s_out := fst (step O0 [fa] (OHead 0 2));
+                            s_delta := full_delta (snd (step O0 [fa] (OHead 0 2))); s_nrows := [3; 2]; s_shared := true |} = [21]%nat.
 Proof. vm_compute. repeat split. Qed.
 
 (* a history that meets every premise of check_steps_model (and so is accepted) *)
